@@ -128,6 +128,12 @@ def judge(ctx, sc, im):
                 if g != exp:
                     ctx.fail('synset.translate()=synsets-of-the-target-sharing-the-ILI', sc,
                              {'args': args, 'synset': list(ref), 'ili': my, 'target': T, 'got': g, 'expected': exp})
+            if x.get('_translate_all') is not None:
+                exp = sorted([[sp, yid] for (sp, yid), i in ilis.items() if my is not None and i == my])
+                g = sorted(t[:2] for t in x['_translate_all'])
+                if g != exp:
+                    ctx.fail('synset.translate()-without-target=all-installed-synsets-sharing-the-ILI', sc,
+                             {'args': args, 'synset': list(ref), 'ili': my, 'got': g, 'expected': exp})
         if sc_.get('identity'):
             bad = sc_['identity']
             if dup_ids and all(v[0] == 'same-entity-unequal-or-hash-differs' for v in bad):
